@@ -695,6 +695,41 @@ theorem good_removeTombstones (s : St) (order : List Nat) (mask : Nat) (d : Bool
   · intro x hx hxf
     unfold sameSv; rw [hf x hx hxf]
 
+/-! ### restart: the cache is rebuilt from storage -/
+
+theorem good_restart (s : St) (d w : Bool) (hinv : Inv s.served s.stored) : Good s (restart s) d w := by
+  have hget : ∀ id, get (restart s).st.served id = (get s.stored id).map (loaded s id) := by
+    intro id; simp only [restart, get_mapVal]
+  have hmd : ∀ id b, get (restart s).st.served id = some b → ∃ a, get s.served id = some a ∧ b.md = a.md := by
+    intro id b hb
+    rw [hget, hinv.durable id] at hb
+    cases ha : get s.served id with
+    | none => rw [ha] at hb; cases hb
+    | some a => rw [ha] at hb; simp at hb; exact ⟨a, rfl, by rw [← hb]; rfl⟩
+  have hfw : ∀ id a, get s.served id = some a → ∃ b, get (restart s).st.served id = some b ∧ b.md = a.md := by
+    intro id a ha
+    rw [hget, hinv.durable id, ha]
+    exact ⟨_, rfl, rfl⟩
+  refine ⟨⟨?_, ?_⟩, ?_, ?_, ?_, ?_⟩
+  · intro id
+    show get s.stored id = _
+    rw [hget]
+    cases get s.stored id <;> rfl
+  · intro i j a b hi hj hij la lb
+    obtain ⟨a0, ha0, ea⟩ := hmd i a hi
+    obtain ⟨b0, hb0, eb⟩ := hmd j b hj
+    rw [ea] at la ⊢; rw [eb] at lb ⊢
+    exact hinv.addr i j a0 b0 ha0 hb0 hij la lb
+  · intro id a ha
+    obtain ⟨b, hb, e⟩ := hfw id a ha
+    rw [hb]; simp only; rw [e]; exact fwd_refl _
+  · intro _ id a b ha hb h3 h4
+    obtain ⟨b', hb', e⟩ := hfw id a ha
+    rw [hb] at hb'; cases hb'
+    rw [e] at h4; exact absurd h4 h3
+  · intro x hx; simp [restart] at hx
+  · intro hr; exact absurd rfl hr
+
 /-- every operation keeps the invariant and is `Good` -/
 theorem good_step (s : St) (op : Op) (hinv : Inv s.served s.stored) :
     Good s (step s op) (match op with | .bury _ _ => true | _ => false)
@@ -713,5 +748,6 @@ theorem good_step (s : St) (op : Op) (hinv : Inv s.served s.stored) :
   | region rid stores => exact good_regionHeartbeat s rid stores _ _ hinv
   | labelsFrom r force mask => exact good_putImpl s r force _ _ _ hinv
   | checkOnly ids mask => exact good_checkStoresOnly s ids mask _ hinv
+  | restart => exact good_restart s _ _ hinv
 
 end PdModel.StoreFsm
